@@ -29,6 +29,7 @@ type Value struct {
 	list []*Value
 	data []byte
 	tag  byte // nbt.Tag*
+	elem byte // element type of a decoded TagList, kept for the case that the list is empty
 }
 
 func NewBoolean(v bool) *Value {
